@@ -587,13 +587,12 @@ static void handle(int argc, char** argv)
 	{
 		size_t l = (size_t)u_arg(argv[1]);
 		a = wa(argv[0], &n); c = wnew(W_OF_B(l + 1));
-		/* TEMPORARY: ppMinPoly_deep() omits ppDiv_deep (docs/C05.fix-12.diff, not yet in /repo) */
-		ppMinPoly(c, a, l, stk(ppMinPoly_deep(l) + ppDiv_deep(2 * W_OF_B(l) + 1, 2 * W_OF_B(l)))); out_w(c, W_OF_B(l + 1)); return;
+		ppMinPoly(c, a, l, stk(ppMinPoly_deep(l))); out_w(c, W_OF_B(l + 1)); return;
 	}
 	if (IS("ppMinPolyMod") && argc == 2)
 	{
 		a = wa(argv[0], &n); d = wa(argv[1], &k); c = wnew(n);
-		ppMinPolyMod(c, a, d, n, stk(ppMinPolyMod_deep(n) + ppDiv_deep(2 * n + 1, 2 * n)));   /* TEMPORARY: see ppMinPoly */ out_w(c, n); return;
+		ppMinPolyMod(c, a, d, n, stk(ppMinPolyMod_deep(n))); out_w(c, n); return;
 	}
 	/* -------------------------------------------------------------------- gf2 */
 	if (IS("gf2") && argc >= 6)
